@@ -92,6 +92,9 @@ type rdShape struct {
 	// document carries: 0 = authorityKeyIdentifier, private, cRLNumber, critical; 1 = critical first; 2 = reversed; 3 = cRLNumber first
 	ExtOrder int `json:"ext_order,omitempty"`
 	CritKind int `json:"crit_kind,omitempty"` // 0 deltaCRLIndicator, 1 issuingDistributionPoint, 2 private OID
+	// Huge: one element that the reader decodes as a whole is larger than any buffer it works with (64 KiB < size < 80 KiB): "" |
+	// "entry" (an entry extension of the first entry that has extensions) | "crlext" (a non-critical private CRL extension)
+	Huge string `json:"huge,omitempty"`
 }
 
 var readerKeys = map[string]crypto.Signer{}
@@ -137,6 +140,7 @@ func materialise(d rdDoc, sh rdShape, pad int) (*derbuild.Doc, error) {
 	}
 	doc.ListPresent = d.List.Present
 	n := 0
+	hugeDone := false
 	for _, e := range d.List.Es {
 		for r := 0; r < sh.Rep; r++ {
 			ent := derbuild.Entry{Serial: widthSerial(sh.Width, n), Date: time.Date(2023, 1, 1+n%28, 12, 0, n%60, 0, time.UTC), GenTime: e.Gen}
@@ -148,6 +152,14 @@ func materialise(d rdDoc, sh rdShape, pad int) (*derbuild.Doc, error) {
 				ent.Exts = []pkix.Extension{{Id: asn1.ObjectIdentifier{2, 5, 29, 21}, Value: reason}}
 				if sh.BigExt && r == 0 {
 					ent.Exts = append(ent.Exts, pkix.Extension{Id: asn1.ObjectIdentifier{1, 3, 6, 1, 4, 1, 99999, 3}, Value: derbuild.OctetString(bytes.Repeat([]byte{0x5a}, 130+170*(n%2)))})
+				}
+				if sh.Huge == "entry" && !hugeDone {
+					hugeDone = true
+					pat := make([]byte, 70000)
+					for i := range pat {
+						pat[i] = byte(i*31 + i>>8) // no period that a stale buffer could imitate
+					}
+					ent.Exts = append(ent.Exts, pkix.Extension{Id: asn1.ObjectIdentifier{1, 3, 6, 1, 4, 1, 99999, 6}, Value: derbuild.OctetString(pat)})
 				}
 			}
 			doc.Entries = append(doc.Entries, ent)
@@ -163,6 +175,13 @@ func materialise(d rdDoc, sh rdShape, pad int) (*derbuild.Doc, error) {
 		if d.Exts == "number" || d.Exts == "crit" {
 			num, _ := asn1.Marshal(big.NewInt(70000 + int64(n)))
 			doc.Exts = append(doc.Exts, pkix.Extension{Id: crlNumberOID, Value: num})
+		}
+		if sh.Huge == "crlext" {
+			pat := make([]byte, 66000+len(d.List.Es)*997)
+			for i := range pat {
+				pat[i] = byte(i*17 + i>>9)
+			}
+			doc.Exts = append(doc.Exts, pkix.Extension{Id: asn1.ObjectIdentifier{1, 3, 6, 1, 4, 1, 99999, 7}, Value: derbuild.OctetString(pat)})
 		}
 		if d.Exts == "crit" {
 			crit := pkix.Extension{Id: asn1.ObjectIdentifier{2, 5, 29, 27}, Critical: true, Value: derbuild.SmallInt(3)} // deltaCRLIndicator
@@ -477,6 +496,23 @@ func C06(c *vk.Ctx) {
 		sh := readerShapes(c, rng, i+int(c.Seed))
 		runReaderCase(c, rc, sh, dir)
 		n++
+		// one whole-decoded element beyond 64 KiB (still inside the reader's structure limit)
+		hasEntryExt := false
+		for _, e := range rc.Doc.List.Es {
+			hasEntryExt = hasEntryExt || e.Ext
+		}
+		if hasEntryExt && i%5 == 0 {
+			s4 := sh
+			s4.Huge, s4.Rep = "entry", 1
+			runReaderCase(c, rc, s4, dir)
+			n++
+		}
+		if rc.Doc.Exts != "absent" && i%7 == 0 {
+			s4 := sh
+			s4.Huge = "crlext"
+			runReaderCase(c, rc, s4, dir)
+			n++
+		}
 		if rc.Doc.Exts == "crit" || (rc.Doc.Exts == "number" && i%3 == 0) {
 			// the order of the extensions decides nothing: every order, every kind of unimplemented critical extension
 			for o := 0; o < 4; o++ {
